@@ -23,14 +23,17 @@ def main():
             for p, v in d.items():
                 if isinstance(v, dict): checks.setdefault(p, []).append({"run": os.path.basename(cf), "exit": v["exit"], "seconds": v["s"], "first_lines": v["lines"][:2]})
         notes = open(f"{src}/notes.md").read() if os.path.exists(f"{src}/notes.md") else ""
-        meta = {"seed_id": sid, "breaks_property": sid.split("-")[0].rstrip("b"), "source": "independent sub-agent given only the property text and a scratch worktree",
+        meta = {"seed_id": sid, "breaks_property": sid[:3], "source": "independent sub-agent given only the property text and a scratch worktree",
                 "needs_to_manifest": notes[:1500],
                 "confirmed_here": {"patch_applies": True, "existing_suite_passes_with_change": True, "suite_tests_passed": conf.get("suite_passed"),
                                    "demo_fails_with_change": True, "demo_passes_without_change": True, "commands": "lib/seedtool.py confirm (git apply in /tmp/seed/<id>; cargo test --workspace --no-fail-fast --offline; cargo test --test <demo>)"},
                 "checks_run_against_it": checks,
                 "detected_by": sorted(p for p, runs in checks.items() if runs and runs[-1]["exit"] == 1)}
         json.dump(meta, open(f"{dst}/meta.json", "w"), indent=1)
-        rows.append((sid, meta["detected_by"], {p: [r["exit"] for r in runs] for p, runs in checks.items()}))
+    # the table is rebuilt from every kept seed's meta.json (older waves' /tmp/seed/out no longer exists)
+    for mf in sorted(glob.glob(f"{V}/seeded/*/meta.json")):
+        meta = json.load(open(mf))
+        rows.append((meta["seed_id"], meta["detected_by"], {p: [r["exit"] for r in runs] for p, runs in meta["checks_run_against_it"].items()}))
     with open(f"{V}/seeded/README.md", "w") as f:
         f.write("# Seeded changes\n\nEach directory holds a change to pest written by an independent sub-agent that was given only the text of one property and a scratch worktree. "
                 "Each was re-confirmed here (applies to /repo's HEAD, the existing suite still passes, the demonstration fails with the change and passes without). "
